@@ -377,6 +377,11 @@ func (st *State) sentinel(name, sort string) Term {
 			st.globals = append(st.globals, sym)
 		}
 	}
+	if sort == SortInt && !st.decl["nz:"+sym] {
+		st.decl["nz:"+sym] = true
+		st.emit(fmt.Sprintf("(assert (> %s 0))", sym))
+		st.emit(fmt.Sprintf("(assert (isold %s))", sym))
+	}
 	return mkTerm(sym, sort)
 }
 
